@@ -860,6 +860,29 @@ func Run(r *fw.Run) {
 	keyBinding(r)
 	overlapPart(r, nil)
 	retentionPart(r)
+	// many text lines that look like signature lines (they begin with an em dash and a space): limits on the
+	// number of signatures are about signature lines, not about the text
+	{
+		l := fw.NewLocal()
+		counts := []int{1, 2, 50, 98, 99, 100, 101, 102, 200, 1000}
+		r.Bounds["signature_like_text_lines"] = counts
+		for _, n := range counts {
+			for _, line := range []string{"— dialogue\n", "— k1.example AAAAAAA=\n", "—\n", "— x\n\n— y\n"} {
+				text := "intro\n" + strings.Repeat(line, n)
+				for _, sids := range [][]string{{"k1"}, {"k1", "k2"}} {
+					l.States++
+					l.Execs++
+					l.Transitions++
+					if msg, class := signOpen(text, sids, []string{"k1", "k2"}); msg != "" {
+						r.Violation(fmt.Sprintf("sign-open:siglike:%d:%q:%v", n, line, sids), msg, caseT{Kind: "sign-open", Text: strconv.QuoteToASCII(text), Signers: sids, Verifiers: []string{"k1", "k2"}})
+					} else if class != "" {
+						l.Nontrivial++
+					}
+				}
+			}
+		}
+		r.Merge(l)
+	}
 	// dense length sweep: a text line, a signature payload and a key name of every length 0..enum.DenseMax
 	{
 		var mu sync.Mutex
